@@ -4,7 +4,7 @@ from checks import proc_common as pc
 ID = "C10"
 LEVEL = "proof"
 MODULE = "NrDaemon.Props.C10"
-PREFIX = ("C10", "C01", "C04", "harness")
+PREFIX = ("C10", "C01", "C04", "C08", "harness")
 RULE = ("engine proc with op `mut`: a valid Transaction message built from a generated transaction is mutated by one of 8 structured mutations (bit flips, truncation, 4-byte word overwrite with extreme values, vtable entry overwrite, splice, root-offset edit, byte noise, extension) chosen by a per-op seed, and sent through the real serve()/HandleMessage/processBinary/IncomingTxnData/AggregateInto path, addressed to a live (victim) run id or to an unknown id, interleaved with well-formed traffic and harvests of the other applications whose requests continue to be compared exactly. Non-trivial = a history with at least one mutation that reached the processor goroutine; distinct = distinct op lists.")
 ASSUMPTIONS = ['run ids issued by the collector are distinct; one outstanding connect attempt per application', 'daemon-generated metrics other than the Seen/Sent/Dropped rows are filtered out of the comparison', 'a harvest trigger for a run that has already been shut down is not generated', 'sha256 is treated as injective on the policy-name lists compared']
 EXPLANATION = "L2 processor machine in Lean; every request the real processor makes is compared with the model's; the exactly-once ledger Spec runs on the implementation's requests."
@@ -31,3 +31,10 @@ tags = pc.tags_proc
 nontrivial = pc.nontrivial_proc
 SHRINK = True
 PIN_PREFIX = 1
+
+
+def _badfrag(r):
+    return any("badfrag=1" in o for o in r.ops)
+
+
+KNOWN_SIGS = {"badfrag": _badfrag}
